@@ -6012,6 +6012,22 @@ impl<'a, 'graph> Builder<'a, 'graph> {
     }
   }
 
+  /// A dynamic branch is parked per specifier and later loaded with the
+  /// range of its first importer only, so attribute a jsr/npm requirement
+  /// to every importing package at the time the import is parked.
+  fn mark_dep_of_parked_dynamic_branch(
+    &mut self,
+    specifier: &ModuleSpecifier,
+    range: &Range,
+  ) {
+    if matches!(specifier.scheme(), "jsr" | "npm")
+      && let Ok(load_specifier) =
+        self.parse_load_specifier_kind(specifier, Some(range))
+    {
+      self.maybe_mark_dep(&load_specifier, Some(range));
+    }
+  }
+
   fn mark_jsr_dep(
     &mut self,
     package_ref: &JsrPackageReqReference,
@@ -6705,6 +6721,7 @@ impl<'a, 'graph> Builder<'a, 'graph> {
               }
             });
           if dep.is_dynamic && !self.in_dynamic_branch {
+            self.mark_dep_of_parked_dynamic_branch(specifier, range);
             let value = self
               .state
               .dynamic_branches
@@ -6750,6 +6767,7 @@ impl<'a, 'graph> Builder<'a, 'graph> {
               }
             });
           if dep.is_dynamic && !self.in_dynamic_branch {
+            self.mark_dep_of_parked_dynamic_branch(specifier, range);
             self.state.dynamic_branches.insert(
               specifier.clone(),
               PendingDynamicBranch {
